@@ -6,6 +6,7 @@ sorted-merge XOR. That a returned assignment satisfies the system (`check(s)`) i
 run-time values and is NOT decided (see DESIGN.md, C19)."""
 from framework import rule
 from r_guards import short_fn
+from guards import is_derived
 from sym import *  # noqa
 from ir import *  # noqa
 
@@ -413,3 +414,69 @@ def r19_5(ctx, rr):
     rr.instances += 1
     oki = any(n.get("k") == "MethodCall" and n["name"] == "set" and len(n["args"]) == 2 and n["args"][1].get("k") == "Lit" and n["args"][1].get("v") in (False, "false") for n in walk(b.body))
     rr.check(oki, "lazy:activation-clears-idle", "lazy_gaussian_elimination: activating a variable clears its idle flag (`idle.set(var, false)`)", b.span)
+
+
+@rule("R19.6", props=["C19", "C07", "C08"], scope_all=True, floor=3, title="the solvers return an error only for an unsolvable row, for a failed sub-solver, or for the tabled input check (pivot row non-empty)")
+def r19_6(ctx, rr):
+    """C19: an error is returned only for unsolvable systems. Every explicit `return Err(..)` (bail!/ensure!) of
+    echelon_form, gaussian_elimination and lazy_gaussian_elimination must sit under a positive `is_unsolvable()`
+    test of a row, or be the input check `ensure!(!row.vars.is_empty())`; everything else propagates with `?`."""
+    F = ctx.F()
+    n_err = 0
+    for path in (r"^utils::mod2_sys::Modulo2System::<W>::echelon_form$", r"^utils::mod2_sys::Modulo2System::<W>::gaussian_elimination$", r"^utils::mod2_sys::Modulo2System::<W>::lazy_gaussian_elimination$"):
+        b = F.one(path)
+        ps_of = _parents(b)
+        for n in walk(b.body):
+            if n.get("k") != "Ret" or "e" not in n:
+                continue
+            s = show(F, n["e"])
+            if "from_residual" in s or "FromResidual" in s:
+                continue  # `?`
+            if not (n["e"].get("k") == "Call" and "Err" in show(F, n["e"]["f"])[:24]):
+                continue
+            n_err += 1
+            rr.instances += 1
+            conds = [p for p in ps_of[id(n)] if p.get("k") == "If"]
+            ok = False
+            for c in conds:
+                in_then = any(x is n for x in walk(c["th"]))
+                cc = c["c"]
+                neg = any(y.get("k") == "Unary" and y.get("op") == "!" for y in walk(cc))
+                if in_then and not neg and any(y.get("k") == "MethodCall" and y["name"] == "is_unsolvable" for y in walk(cc)):
+                    ok = True
+                # ensure!(!x.vars.is_empty()) expands to `if !(!x.vars.is_empty()) { return Err }` or `if x.vars.is_empty()`
+                if in_then and any(y.get("k") == "MethodCall" and y["name"] == "is_empty" and any(z.get("k") == "Field" and z["name"] == "vars" for z in walk(y["recv"])) for y in walk(cc)):
+                    ok = True
+            key = "%s:error-only-when-unsolvable" % b.name
+            rr.ob(ok, key=key, sample={"fn": b.key, "at": F.loc(n)})
+            if not ok:
+                rr.violate(key, "%s returns an error at `%s` that is not guarded by `is_unsolvable()` of a row: a solvable system (e.g. one with redundant equations) can reach it" % (b.key, show(F, conds[-1]["c"])[:100] if conds else "an unconditional return"), F.loc(n))
+    if n_err < 3:
+        raise AnchorMissing("R19.6: expected at least 3 explicit error returns in the solvers, found %d" % n_err)
+
+
+@rule("R19.7", props=["C19", "C07", "C08"], scope_all=True, floor=10, title="the solvers' counters keep full width: no cast narrows a count or an index below the type it is computed in")
+def r19_7(ctx, rr):
+    """weights (equations per variable) and priorities (variables per equation) are counts of arbitrary size; a
+    truncating `as u8`/`as u16`/`as u32` is exact only below 256/65536/2^32 and corrupts the lazy bookkeeping above."""
+    F = ctx.F()
+    WIDTH = {"u8": 8, "u16": 16, "u32": 32, "u64": 64, "usize": 64, "u128": 128, "i8": 8, "i16": 16, "i32": 32, "i64": 64, "isize": 64, "bool": 1}
+    n_casts = 0
+    for b in F.fns():
+        if not b.file.endswith("utils/mod2_sys.rs") or is_derived(b) or "tests" in b.key:
+            continue
+        for n in walk(b.body):
+            if n.get("k") != "Cast" or "e" not in n:
+                continue
+            dst, src = F.ty(n), F.ty(n["e"])
+            if dst not in WIDTH or src not in WIDTH:
+                continue
+            n_casts += 1
+            rr.instances += 1
+            ok = WIDTH[dst] >= WIDTH[src] or n["e"].get("k") == "Lit"
+            key = "%s:no-narrowing-cast" % b.name
+            rr.ob(ok, key=key)
+            if not ok:
+                rr.violate(key, "%s narrows `%s` from %s to %s: counts of variables/equations are unbounded, the cast is exact only below 2^%d" % (b.key, show(F, n)[:60], src, dst, WIDTH[dst]), F.loc(n))
+    if n_casts < 10:
+        raise AnchorMissing("R19.7 saw %d integer casts in mod2_sys.rs" % n_casts)
